@@ -25,5 +25,6 @@ func TestWorker(t *testing.T) {
 		"C44": checkC44,
 		"C39": checkC39,
 		"C41": checkC41,
+		"C18": checkC18,
 	})
 }
